@@ -29,3 +29,9 @@ pub fn vx_arc_get_mut<T>(this: &mut std::sync::Arc<T>) -> (r: Option<&mut T>)
         r is None ==> **final(this) == **old(this),
     no_unwind
 { std::sync::Arc::get_mut(this) }
+// Arc::try_unwrap ("Returns the inner value, if the Arc has exactly one strong reference. Otherwise, an Err is returned with the
+// same Arc"): like get_mut, whether other references exist is not visible in the value, so the result may always be Err
+#[verifier::external_body]
+pub fn vx_arc_try_unwrap<T>(this: std::sync::Arc<T>) -> (r: Result<T, std::sync::Arc<T>>)
+    ensures r is Ok ==> r->Ok_0 == *this, r is Err ==> r->Err_0 == this,
+{ std::sync::Arc::try_unwrap(this) }
